@@ -1,4 +1,5 @@
 import Restful.Lemmas.TieImp
+import Restful.Lemmas.TieImpTactic
 namespace Restful
 namespace TieImp
 open Imp
@@ -159,7 +160,7 @@ theorem template_to_regex (rx : Str → Str → Bool × GoErr) (join : Str → S
           rw [hl]
           rcases Option.eq_none_or_eq_some (each.slice? 1 (↑(List.length each) - 1)) with h | ⟨n, h⟩
           · simp only [h]; rfl
-          · simp only [h, Option.bind_some, T6.stepTok_var]
+          · simp only [h, Option.bind_some, T6.stepTok_var, str_add]
         · simp only [hi]
           have hb : ((colon : Int) != -1) = true := by rw [bne_iff_ne]; omega
           have hb' : ((colon : Int) == -1) = false := by rw [beq_eq_false_iff_ne]; omega
@@ -177,13 +178,13 @@ theorem template_to_regex (rx : Str → Str → Bool × GoErr) (join : Str → S
               by_cases hw : Jsr.trimSpace e = ['*']
               · have hw' : (Jsr.trimSpace e == ['*']) = true := by rw [beq_iff_eq]; exact hw
                 rw [if_pos hw, if_pos hw']
-                simp only [T6.stepTok_wild]
+                simp only [T6.stepTok_wild, str_add]
               · have hw' : (Jsr.trimSpace e == ['*']) = false := by rw [beq_eq_false_iff_ne]; exact hw
                 rw [if_neg hw, if_neg (by rw [hw']; exact Bool.false_ne_true)]
-                simp only [T6.stepTok_re]
+                simp only [T6.stepTok_re, str_add]
       · simp only [hp]
         rw [if_neg Bool.false_ne_true, if_neg Bool.false_ne_true]
-        simp only [T6.stepTok_lit]
+        simp only [T6.stepTok_lit, str_add]
   unfold Jsr.compile
   cases Jsr.parseToks (tokenize tmpl) with
   | none => rfl
